@@ -218,7 +218,7 @@ class Env:
     def close(self):
         shutil.rmtree(self.work, ignore_errors=True)
 
-    def run_impl(self, cases, timeout_ms=5000):
+    def run_impl(self, cases, timeout_ms=5000, _retry=True):
         """cases: dicts for gorunner.  Returns {id: [result per repetition]}"""
         inp = '\n'.join(json.dumps(c) for c in cases).encode() + b'\n'
         r = sh([self.gorunner, '-bin', self.borno, '-work', os.path.join(self.work, 'run'),
@@ -233,6 +233,16 @@ class Env:
             out.setdefault(d['id'], []).append(d)
         for v in out.values():
             v.sort(key=lambda d: d['rep'])
+        # status -2 = gorunner could not start the process at all (fork failure, binary being replaced): not an
+        # observation of the implementation.  Run those cases again once; if it persists, it is a harness failure.
+        if _retry:
+            bad = set(k for k, v in out.items() if any(d['status'] == -2 for d in v))
+            if bad:
+                again = self.run_impl([c for c in cases if c['id'] in bad], timeout_ms=timeout_ms, _retry=False)
+                out.update(again)
+                still = [k for k, v in again.items() if any(d['status'] == -2 for d in v)]
+                if still:
+                    raise RuntimeError('gorunner could not run the implementation on %d cases (e.g. %s): %r' % (len(still), still[0], again[still[0]][0]['stderr'][:200]))
         return out
 
     def run_godump(self, mode, cases):
